@@ -312,7 +312,7 @@ fn single_item(v: &Value) -> Option<&Value> {
 pub fn run(cfg: &Cfg) -> Report {
   let mut rep = Report::new(
     "C09",
-    "ordered pairs (quick and thorough) and triples (a sample in quick, all in thorough) over a value alphabet of ~120 fixed values (null, booleans, numbers incl. equal values of different scale and 34+ digit ones, strings, dates, times, date-times, both duration kinds, lists, contexts, ranges, functions, a list of ONE item of every value kind, lists of one such list, contexts of one boolean entry), plus random numbers / strings / dates; not(a) and if a then b else c for every value; a singleton list in each position of between / in. Non-trivial: at least one operand is not null; distinct by rendered request.",
+    "ordered pairs (quick and thorough) and triples (a sample in quick; in thorough all over a core of every third value, all of one ordered kind, and three million random ones) over a value alphabet of ~120 fixed values (null, booleans, numbers incl. equal values of different scale and 34+ digit ones, strings, dates, times, date-times, both duration kinds, lists, contexts, ranges, functions, a list of ONE item of every value kind, lists of one such list, contexts of one boolean entry), plus random numbers / strings / dates; not(a) and if a then b else c for every value; a singleton list in each position of between / in. Non-trivial: at least one operand is not null; distinct by rendered request.",
   );
   let mut model = Model::start(&cfg.driver);
   let mut rng = Rng::new(cfg.seed);
@@ -736,12 +736,31 @@ pub fn run(cfg: &Cfg) -> Report {
   // ------------------------------------------------------------------ triples: between / in / and
   let mut triples: Vec<(usize, usize, usize)> = vec![];
   if thorough {
-    for i in 0..n {
-      for j in 0..n {
-        for k in 0..n {
+    // all triples over a core of the alphabet (every third value, so that every kind and every family of spellings
+    // is in it: about a hundred values, a million triples), all triples of one ordered kind over the whole alphabet,
+    // and three million random triples over the whole alphabet (n³ is over thirty million since the alphabet holds
+    // ranges of every closedness and a singleton list of every kind: five model requests each did not fit the
+    // tier's time limit)
+    let core: Vec<usize> = (0..n).filter(|i| i % 3 == 0).collect();
+    for &i in &core {
+      for &j in &core {
+        for &k in &core {
           triples.push((i, j, k));
         }
       }
+    }
+    let ordered: Vec<usize> = (0..n).filter(|i| ordered_kind(&alphabet[*i].1).is_some()).collect();
+    for &i in &ordered {
+      for &j in &ordered {
+        for &k in &ordered {
+          if ordered_kind(&alphabet[i].1) == ordered_kind(&alphabet[j].1) && ordered_kind(&alphabet[j].1) == ordered_kind(&alphabet[k].1) {
+            triples.push((i, j, k));
+          }
+        }
+      }
+    }
+    for _ in 0..3_000_000 {
+      triples.push((rng.below(n as u64) as usize, rng.below(n as u64) as usize, rng.below(n as u64) as usize));
     }
   } else {
     // all triples of one ordered kind among the fixed alphabet, plus a random sample of all triples
